@@ -161,13 +161,21 @@ class WatermarkPoolSink(PoolSink):
     Args:
       sink - An open sink.
     """
-    sink_stack, msg, stream, headers = self._waiters.popleft()
-    self._varz.queue_size(len(self._waiters))
-    # The stack has a QueuingChannelSink on the top now, pop it off
-    # and push the real stack back on.
-    orig_sink, ctx = sink_stack.Pop()
-    sink_stack.Push(orig_sink, sink)
-    sink.AsyncProcessRequest(sink_stack, msg, stream, headers)
+    while any(self._waiters):
+      sink_stack, msg, stream, headers = self._waiters.popleft()
+      self._varz.queue_size(len(self._waiters))
+      # A waiter whose stack has already been drained (it timed out, or was
+      # failed by Close(), while queued) has nothing left to process, skip it.
+      if not sink_stack.Any():
+        continue
+      # The stack has a QueuingChannelSink on the top now, pop it off
+      # and push the real stack back on.
+      orig_sink, ctx = sink_stack.Pop()
+      sink_stack.Push(orig_sink, sink)
+      sink.AsyncProcessRequest(sink_stack, msg, stream, headers)
+      return
+    # Nobody is left to hand the sink to, return it to the pool.
+    self._Release(sink)
 
   def Open(self):
     ar = AsyncResult()
